@@ -331,7 +331,11 @@ func Check(r *ev.Run, replay string) {
 						}
 						c := caseT{ch, mn, k, mode}
 						sc := c.scenario()
-						st := dsched.Explore(sc, bound, limit)
+						b := bound
+						if mode != "" && b > 1 {
+							b = 1 // the reused-VM modes with one deviation in both tiers
+						}
+						st := dsched.Explore(sc, b, limit)
 						cases++
 						total += st.Executions
 						points += st.Points
@@ -375,7 +379,7 @@ func Check(r *ev.Run, replay string) {
 func finish(r *ev.Run, bound, maxK int) {
 	r.Set("deviation_bound", bound)
 	r.Set("max_cancellation_instant", maxK)
-	r.Set("rule", fmt.Sprintf("child prefixes x main shapes x cancellation instants 0..%d (the canceller's gate opens when the main task has taken k scheduling points = VM instructions, or when the system is idle) x every schedule with at most %d deviations (delayed cancel, preempted watcher/child/main); fairness 4 bounds spinning; horizon 60 decisions after the evaluation returned", maxK, bound))
+	r.Set("rule", fmt.Sprintf("child prefixes x main shapes x cancellation instants 0..%d (the canceller's gate opens when the main task has taken k scheduling points = VM instructions, or when the system is idle) x every schedule with at most %d deviations (delayed cancel, preempted watcher/child/main; the reused-VM modes - RunCode and Call on a VM that already ran with the same context - with at most 1); fairness 4 bounds spinning; horizon 60 decisions after the evaluation returned", maxK, bound))
 }
 
 func signature(ch, mn shape, v string) string {
